@@ -196,6 +196,7 @@ type vf6Scenario struct {
 	Actions    []json.RawMessage `json:"actions"`
 	Budget     int               `json:"budget"`
 	Searches   []string          `json:"searches"`
+	Corrupt    []int             `json:"corrupt"` // capture files that are written as garbage (unreadable)
 }
 
 type vf6TagDump struct {
@@ -210,41 +211,42 @@ type vf6TagDump struct {
 	ST    []string `json:"st"`
 }
 type vf6State struct {
-	Next    uint64                `json:"next"`
-	All     int                   `json:"all"`
-	Tags    map[string]vf6TagDump `json:"tags"`
-	Upd     []uint                `json:"upd"`
-	Rst     []uint                `json:"rst"`
-	Add     []uint                `json:"add"`
-	FMerge  bool                  `json:"fmerge"`
-	FTag    bool                  `json:"ftag"`
-	FConv   bool                  `json:"fconv"`
-	Queue   []int                 `json:"queue"`
-	ToConv  map[string][]uint     `json:"toconv"`
+	Next    uint64                       `json:"next"`
+	All     int                          `json:"all"`
+	Tags    map[string]vf6TagDump        `json:"tags"`
+	Upd     []uint                       `json:"upd"`
+	Rst     []uint                       `json:"rst"`
+	Add     []uint                       `json:"add"`
+	FMerge  bool                         `json:"fmerge"`
+	FTag    bool                         `json:"ftag"`
+	FConv   bool                         `json:"fconv"`
+	Queue   []int                        `json:"queue"`
+	ToConv  map[string][]uint            `json:"toconv"`
 	Cache   map[string]map[string]string `json:"cache"` // converter -> stream id -> cached output (client bytes)
-	NIdx    int                   `json:"nidx"`
-	IdxCnt  []int                 `json:"idxcnt"`
-	Unmerge int                   `json:"unmerge"`
-	Jobs    []string              `json:"jobs"` // parked jobs kind:phase
-	Merge   bool                  `json:"mergeEligible"`
+	NIdx    int                          `json:"nidx"`
+	IdxCnt  []int                        `json:"idxcnt"`
+	Unmerge int                          `json:"unmerge"`
+	Jobs    []string                     `json:"jobs"` // parked jobs kind:phase
+	Merge   bool                         `json:"mergeEligible"`
 }
 type vf6StreamObs struct {
-	ID    uint64   `json:"id"`
-	CP    uint16   `json:"cp"`
-	SP    uint16   `json:"sp"`
-	CH    string   `json:"ch"`
-	SH    string   `json:"sh"`
-	C     string   `json:"c"`
-	S     string   `json:"s"`
-	FT    int64    `json:"ft"` // ms after base
-	LT    int64    `json:"lt"`
-	Tags  []string `json:"tags"`  // AllTags (view after prefetch of all tags)
-	Has   []string `json:"has"`   // names with HasTag true
+	ID   uint64   `json:"id"`
+	CP   uint16   `json:"cp"`
+	SP   uint16   `json:"sp"`
+	CH   string   `json:"ch"`
+	SH   string   `json:"sh"`
+	C    string   `json:"c"`
+	S    string   `json:"s"`
+	FT   int64    `json:"ft"` // ms after base
+	LT   int64    `json:"lt"`
+	Tags []string `json:"tags"` // AllTags (view after prefetch of all tags)
+	Has  []string `json:"has"`  // names with HasTag true
 }
 type vf6ViewObs struct {
-	Streams  []vf6StreamObs      `json:"streams"`
-	Searches map[string][]uint64 `json:"searches"`
-	Err      string              `json:"err,omitempty"`
+	Streams     []vf6StreamObs      `json:"streams"`
+	Searches    map[string][]uint64 `json:"searches"`
+	Err         string              `json:"err,omitempty"`
+	PrefetchErr string              `json:"prefetchErr,omitempty"`
 }
 type vf6Line struct {
 	Scn   string      `json:"scn"`
@@ -261,17 +263,17 @@ type vf6Line struct {
 // ---------------------------------------------------------------- runner
 
 type vf6Run struct {
-	t     *testing.T
-	mgr   *Manager
-	ctl   *vf6Ctl
-	px    *vf6Proxy
-	scn   *vf6Scenario
-	files [][]string // scenario file index -> pcap file names
-	fidx  map[string]int
-	views map[int]*View
-	base  time.Time
+	t           *testing.T
+	mgr         *Manager
+	ctl         *vf6Ctl
+	px          *vf6Proxy
+	scn         *vf6Scenario
+	files       [][]string // scenario file index -> pcap file names
+	fidx        map[string]int
+	views       map[int]*View
+	base        time.Time
 	completions int
-	sub   func(what string, err error) // emits one line per gate step inside "settle"
+	sub         func(what string, err error) // emits one line per gate step inside "settle"
 }
 
 func vf6Bits(b bitmask.LongBitmask) []uint {
@@ -504,8 +506,24 @@ func (r *vf6Run) dumpState() *vf6State {
 }
 
 func (r *vf6Run) observeView(v *View, searches []string) *vf6ViewObs {
+	obs := r.observeView1(v, searches, true)
+	if obs.Err != "" {
+		// prefetching the tags failed (e.g. a tag whose evaluation fails while it is undecided): the streams
+		// themselves are still needed as ground truth; the tag columns of this observation are not compared
+		o2 := r.observeView1(v, searches, false)
+		o2.PrefetchErr = obs.Err
+		return o2
+	}
+	return obs
+}
+
+func (r *vf6Run) observeView1(v *View, searches []string, prefetch bool) *vf6ViewObs {
 	obs := &vf6ViewObs{Streams: []vf6StreamObs{}, Searches: map[string][]uint64{}}
 	ctx := context.Background()
+	opts := []StreamsOption{}
+	if prefetch {
+		opts = append(opts, PrefetchAllTags())
+	}
 	err := v.AllStreams(ctx, func(sc StreamContext) error {
 		s := sc.Stream()
 		o := vf6StreamObs{ID: s.ID(), CP: s.ClientPort, SP: s.ServerPort, CH: s.ClientHostIP(), SH: s.ServerHostIP(),
@@ -521,24 +539,26 @@ func (r *vf6Run) observeView(v *View, searches []string) *vf6ViewObs {
 				o.S += string(d.Content)
 			}
 		}
-		tags, err := sc.AllTags()
-		if err != nil {
-			return err
-		}
-		o.Tags = tags
-		for tn := range v.tagDetails {
-			h, err := sc.HasTag(tn)
+		if prefetch {
+			tags, err := sc.AllTags()
 			if err != nil {
 				return err
 			}
-			if h {
-				o.Has = append(o.Has, tn)
+			o.Tags = tags
+			for tn := range v.tagDetails {
+				h, err := sc.HasTag(tn)
+				if err != nil {
+					return err
+				}
+				if h {
+					o.Has = append(o.Has, tn)
+				}
 			}
+			sort.Strings(o.Has)
 		}
-		sort.Strings(o.Has)
 		obs.Streams = append(obs.Streams, o)
 		return nil
-	}, PrefetchAllTags())
+	}, opts...)
 	if err != nil {
 		obs.Err = err.Error()
 		return obs
@@ -630,6 +650,10 @@ while True:
         else:
             s += d
     out = name.encode() + b"#" + c.hex().encode() + b"#" + s.hex().encode()
+    if name == "cvb" and (b"flagX" in c or b"flagX" in s):
+        # a buggy converter: a chunk with a direction that does not exist, then the rest of a well-formed answer
+        print(json.dumps({"Direction": "sideways", "Content": base64.b64encode(b"???").decode(), "Time": "2020-01-01T12:00:00.000000"}))
+        out = b"LEFTOVER#" + out
     print(json.dumps({"Direction": "client-to-server", "Content": base64.b64encode(out).decode(), "Time": "2020-01-01T12:00:00.000000"}))
     print()
     print("{}", flush=True)
@@ -919,6 +943,13 @@ func vf6RunScenario(t *testing.T, scn *vf6Scenario, emit func(*vf6Line)) {
 		r.files = append(r.files, names)
 		for _, n := range names {
 			r.fidx[n] = fi
+			for _, ci := range scn.Corrupt {
+				if ci == fi {
+					if err := os.WriteFile(filepath.Join(mgr.PcapDir, n), []byte("this is not a capture file\n"), 0644); err != nil {
+						t.Fatalf("corrupt: %v", err)
+					}
+				}
+			}
 		}
 	}
 	defer func() {
